@@ -98,7 +98,8 @@ def guarded_check(mod, case, pid, seconds):
 
 
 def _worker(args):
-    pid, tier, base, start, stride, n_total, deadline, run_timeout = args
+    pid, tier, base, start, stride, n_total, deadline, run_timeout = args[:8]
+    skip = args[8] if len(args) > 8 else ()      # run indices that have a worker of their own (minutes-long runs)
     faulthandler.enable()
     mod = load_prop(pid)
     # the per-run limit counts CPU time of this process (ITIMER_PROF), so a loaded machine does not turn into timeouts;
@@ -114,6 +115,9 @@ def _worker(args):
     done = 0
     i = start
     while i < n_total:
+        if i in skip:
+            i += stride
+            continue
         if time.time() > deadline:
             stats["__truncated"] += 1
             break
@@ -314,7 +318,8 @@ def history_replay(pid, case, v):
     r = case.get("_run") or {}
     if "start" not in r:
         return None
-    seq = list(range(r["start"], r["index"] + 1, r["stride"]))
+    solo = getattr(load_prop(pid), "SOLO", {}).get(r.get("tier"), ())
+    seq = [x for x in range(r["start"], r["index"] + 1, r["stride"]) if x not in solo or x == r["index"]]
     for m in (2, 3, 5, 9, 17, 33, 65, 129, 257, 513, 1025, 2049, 4097, len(seq)):
         if m > len(seq) and m != len(seq):
             m = len(seq)
@@ -374,9 +379,11 @@ def main_check(pid, tier, runs=None, budget=None, jobs=None, replay=None, eviden
     viols, harness, samples = [], [], []
     done = n_harness = 0
     try:
-        with ProcessPoolExecutor(max_workers=jobs, mp_context=ctx) as ex:
-            futs = [ex.submit(_worker, (pid, tier, base, s, jobs, n_total, deadline, run_timeout))
-                    for s in range(jobs)]
+        with ProcessPoolExecutor(max_workers=jobs + len([x for x in getattr(mod, "SOLO", {}).get(tier, ()) if x < n_total]), mp_context=ctx) as ex:
+            solo = tuple(sorted(x for x in getattr(mod, "SOLO", {}).get(tier, ()) if x < n_total))
+            futs = [ex.submit(_worker, (pid, tier, base, x, n_total, n_total, deadline, run_timeout)) for x in solo]
+            futs += [ex.submit(_worker, (pid, tier, base, s, jobs, n_total, deadline, run_timeout, solo))
+                     for s in range(jobs)]
             for f in as_completed(futs, timeout=budget + 600):
                 r = f.result()
                 done += r["done"]
